@@ -144,8 +144,14 @@ def guarded(call, sig, what):
         call()
     except (IndexError, SystemError) as e:
         return [dict(sig=sig, msg=f'{what}: out-of-bounds access: {type(e).__name__}: {e}')]
-    except AssertionError:
-        return []
+    except (AssertionError, ValueError):
+        return []       # the routine refused the input (documented preconditions may be enforced more strictly): no access happened
+    except Exception as e:
+        from vf import core
+        st = core.stale_reason(e)
+        if st:
+            raise core.Stale(st)
+        raise
     return []
 
 
